@@ -210,6 +210,8 @@ pub fn reset(idx: usize, cfg: SlabCfg) {
 /// Allocator kinds: their *value layout* changes `ChunkHeader<A>`.
 pub trait SlabKind: Allocator + Clone + Default + 'static {
     const NAME: &'static str;
+    /// whether the (compile-time heavy) exclusive-borrow collection drivers of C15 are instantiated for this kind
+    type MutColl: crate::mutcoll::MutCollSwitch;
     fn ident(&self) -> u64;
 }
 
@@ -233,11 +235,24 @@ macro_rules! impl_alloc {
 pub struct SlabZ;
 impl SlabKind for SlabZ {
     const NAME: &'static str = "Z";
+    type MutColl = crate::mutcoll::Disabled;
     fn ident(&self) -> u64 {
         0
     }
 }
 impl_alloc!(SlabZ);
+
+/// zero-sized allocator value with the C15 collection drivers enabled
+#[derive(Clone, Copy, Default, Debug)]
+pub struct SlabM;
+impl SlabKind for SlabM {
+    const NAME: &'static str = "M";
+    type MutColl = crate::mutcoll::Enabled;
+    fn ident(&self) -> u64 {
+        0
+    }
+}
+impl_alloc!(SlabM);
 
 /// stateful 8-byte allocator value: header = 48 bytes, align 16
 #[derive(Clone, Copy, Debug)]
@@ -251,6 +266,7 @@ impl Default for SlabS8 {
 }
 impl SlabKind for SlabS8 {
     const NAME: &'static str = "S8";
+    type MutColl = crate::mutcoll::Disabled;
     fn ident(&self) -> u64 {
         self.id
     }
@@ -270,6 +286,7 @@ impl Default for SlabA32 {
 }
 impl SlabKind for SlabA32 {
     const NAME: &'static str = "A32";
+    type MutColl = crate::mutcoll::Disabled;
     fn ident(&self) -> u64 {
         self.id
     }
@@ -289,6 +306,7 @@ macro_rules! pad_alloc {
         }
         impl<const SIZE: usize> SlabKind for $name<SIZE> {
             const NAME: &'static str = concat!("Pad", stringify!($align));
+            type MutColl = crate::mutcoll::Disabled;
             fn ident(&self) -> u64 {
                 0x77
             }
